@@ -84,6 +84,13 @@ def executeWitnessScript (env : VerifyEnv) (stack : List Bytes) (script : Bytes)
   | [top] => if castToBool top then pure () else throw .EVAL_FALSE
   | _ => throw .CLEANSTACK
 
+/-- the annex rule of `VerifyWitnessProgram`'s v1 arm (stack top first): with at least two elements and a
+    non-empty top element whose first byte is ANNEX_TAG (0x50), drop the top -/
+def stripAnnex (witness : List Bytes) : List Bytes :=
+  match witness with
+  | top :: rest => if witness.length ≥ 2 ∧ getB top 0 = 0x50 ∧ !top.isEmpty then rest else witness
+  | [] => witness
+
 /-- `VerifyWitnessProgram` (witness stack top first) -/
 def verifyWitnessProgram (env : VerifyEnv) (witness : List Bytes) (version : Nat) (program : Bytes)
     (isP2sh : Bool) : R Unit := do
@@ -105,10 +112,7 @@ def verifyWitnessProgram (env : VerifyEnv) (witness : List Bytes) (version : Nat
     -- BIP341 Taproot: 32-byte non-P2SH witness v1 program (which encodes a P2C-tweaked pubkey)
     if !has env.flags FLAG_TAPROOT then return ()
     if witness.length = 0 then throw .WITNESS_PROGRAM_WITNESS_EMPTY
-    let stack :=
-      match witness with
-      | top :: rest => if witness.length ≥ 2 ∧ getB top 0 = 0x50 ∧ !top.isEmpty then rest else witness
-      | [] => witness
+    let stack := stripAnnex witness
     match stack with
     | [sig] =>
       -- Key path spending (stack size is 1 after removing optional annex)
